@@ -219,7 +219,17 @@ std::string metadata_payload(const std::string &client_id, bool padded) {
 	return pad.enc() + body;
 }
 
-bool parse_agg_chain(const Tlv &tin, AggChain &c) {
+std::string metadata_payload_full(const std::string &client_id, const std::string &machine_id, int64_t seq, int64_t req_time) {
+	std::string body = Tlv::str(0x01, client_id).enc();
+	if (!machine_id.empty()) body += Tlv::str(0x02, machine_id).enc();
+	if (seq >= 0) body += Tlv::u64(0x03, (uint64_t)seq).enc();
+	if (req_time >= 0) body += Tlv::u64(0x04, (uint64_t)req_time).enc();
+	Tlv pad = Tlv::raw(0x1e, (body.size() % 2 == 0) ? std::string("\x01\x01", 2) : std::string("\x01", 1));
+	pad.nc = true; pad.fwd = true;
+	return pad.enc() + body;
+}
+
+bool parse_agg_chain(const Tlv &tin, AggChain &c, bool partial) {
 	Tlv t = tin;
 	if (!t.expand()) return false;
 	c = AggChain();
@@ -250,6 +260,7 @@ bool parse_agg_chain(const Tlv &tin, AggChain &c) {
 			default: break;
 		}
 	}
+	if (partial) return got_in && got_alg; // a chain as extracted from a tree builder: no time / index yet, possibly no link
 	return got_time && got_in && got_alg && !c.links.empty();
 }
 
